@@ -7,6 +7,7 @@ import (
 	"errors"
 	"fmt"
 	"io"
+	"net"
 	"strings"
 	"time"
 
@@ -36,7 +37,7 @@ type c14Case struct {
 	Cuts        []int    `json:"packet_cuts"`
 	CutClass    string   `json:"cut_class"`
 	Offset      int      `json:"fault_offset"` // bytes of the stream delivered before the fault
-	Style       string   `json:"style"`        // eof | eof-with-data | reset | timeout
+	Style       string   `json:"style"`        // eof | eof-with-data | reset | timeout | unexpected-eof | wrapped-eof | closed
 	ReadTimeout int      `json:"packet_read_timeout"`
 	Chunk       string   `json:"chunking"` // "one" | "per-packet" : how the delivered prefix is handed to Read
 	// Prelude: a complete earlier response was delivered and consumed on the
@@ -74,6 +75,11 @@ func c14Err(style string) error {
 		return io.ErrUnexpectedEOF
 	case "wrapped-eof":
 		return fmt.Errorf("transport: %w", io.EOF)
+	case "closed":
+		// the socket was closed underneath the connection (an idle
+		// connection reaper, the owner of the net.Conn) while the
+		// connection's context is live
+		return &net.OpError{Op: "read", Net: "unix", Err: net.ErrClosed}
 	}
 	return xport.ErrTimeout
 }
@@ -545,7 +551,11 @@ func runC14(c *Ctx) {
 			n := len(xport.Concat(pk))
 			base := c14Case{Resp: resp.Name, BodyHex: hex.EncodeToString(body), Bounds: bounds, Kinds: resp.Kinds, Cuts: cu.cuts, CutClass: cu.name}
 			for off := 0; off <= n; off++ {
-				for _, st := range []string{"eof", "eof-with-data", "reset", "timeout", "unexpected-eof", "wrapped-eof"} {
+				styles := []string{"eof", "eof-with-data", "reset", "timeout", "unexpected-eof", "wrapped-eof"}
+				if off%3 == 0 {
+					styles = append(styles, "closed")
+				}
+				for _, st := range styles {
 					cs := base
 					cs.Offset, cs.Style = off, st
 					cs.Chunk = []string{"one", "per-packet"}[off%2]
